@@ -73,6 +73,24 @@ func (e *Engine) GenVC(fn *ssa.Function, opts VerifyOpts) (res *FuncVC) {
 	if len(opts.ParamInvs) > 0 {
 		fr.contract = synthContract(e, fn, fr, opts.ParamInvs)
 	}
+	if fr.contract != nil && len(fr.contract.ParamInv) > 0 {
+		// `invariant` clauses are loop invariants of every loop of the function
+		ct := *fr.contract
+		ct.Loops = map[int]*LoopSpec{}
+		for k, v := range fr.contract.Loops {
+			cp := *v
+			ct.Loops[k] = &cp
+		}
+		for _, ord := range fr.loopOrd {
+			ls := ct.Loops[ord]
+			if ls == nil {
+				ls = &LoopSpec{}
+				ct.Loops[ord] = ls
+			}
+			ls.Inv = append(append([]Clause{}, fr.contract.ParamInv...), ls.Inv...)
+		}
+		fr.contract = &ct
+	}
 	res.HasContract = fr.contract != nil
 	res.NumLoops = len(fr.loopOrd)
 	st := &State{reach: "true", heaps: map[string]string{}}
